@@ -1,4 +1,118 @@
+import IpcHub.Drv.Util
+import IpcHub.Model.Writers
+import IpcHub.Model.WritersInst
+import IpcHub.Spec.Interleave
+/-
+C13 driver ops:
+
+  lts <schedule: tids as digits, e.g. 0010011> <n0> {label}  <n1> {label}
+      thread 0 = media goroutine (one frame job per label, program Gen.consumeTcp with the
+      writes of Gen.packetWrite), thread 1 = request goroutine (one response job per label,
+      program Gen.responseTcp); output: the chunk labels handed to conn.Write in order
+  stream <raw-hex> F <n> {<ch> <payload-hex>} C <n> {<cseq>}     the specification's verdict on a TCP stream
+  msg <hex>                                                     is a WebSocket message exactly one unit?
+  pw <ch> <data-hex>                                            Packet.Write: the chunks written
+  wsc <ch> <data-hex>                                           the ws consumers: the messages sent (Gen flag skipEmpty)
+  bconn <bufSize> {W <size> <sockLen> <bufLen> | F <sockLen> <bufLen>}  buffered.Conn against observed lengths (write k carries the running byte counter)
+-/
 namespace IpcHub.Drv.C13
-/-- placeholder: no model built for this property yet -/
-def handle (_ : List String) : String := "bad-op"
+open IpcHub.Writers IpcHub.Drv
+
+def labelBytes (s : String) : Bytes := s.toUTF8.toList
+def bytesLabel (b : Bytes) : String := String.ofList (b.map (fun x => Char.ofNat x.toNat))
+
+def tidsOf (s : String) : List Nat := s.toList.filterMap (fun c => if c.isDigit then some (c.toNat - 48) else none)
+
+def takeN {α} : Nat → List α → List α × List α
+  | 0, l => ([], l)
+  | _, [] => ([], [])
+  | n + 1, x :: xs => let (a, b) := takeN n xs; (x :: a, b)
+
+def handleLts (sched : String) (rest : List String) : String :=
+  match rest with
+  | n0 :: r =>
+    let (l0, r1) := takeN n0.toNat! r
+    match r1 with
+    | n1 :: r2 =>
+      let (l1, _) := takeN n1.toNat! r2
+      let p0 := (l0.map (frameJobOps ·)).flatten
+      let p1 := (l1.map (respJobOps ·)).flatten
+      let st := exec (initSt (fun t => if t = 0 then p0 else if t = 1 then p1 else [])) (tidsOf sched)
+      let labs := st.out.map bytesLabel
+      let left := (st.threads 0).length + (st.threads 1).length
+      s!"out={String.intercalate "," labs} left={left}"
+    | _ => "bad-op"
+  | _ => "bad-op"
+
+open IpcHub.InterleaveSpec in
+def handleStream (raw : String) (rest : List String) : String :=
+  match hexToBytes raw, rest with
+  | some s, "F" :: n :: r =>
+    let rec frames : Nat → List String → Option (List (UInt8 × List UInt8) × List String)
+      | 0, l => some ([], l)
+      | k + 1, ch :: p :: l =>
+        match hexToBytes p, frames k l with
+        | some pb, some (fs, l') => some ((UInt8.ofNat ch.toNat!, pb) :: fs, l')
+        | _, _ => none
+      | _, _ => none
+    match frames n.toNat! r with
+    | some (fs, "C" :: _ :: cs) => "verdict=" ++ judgeStream s fs (cs.map String.toNat!)
+    | _ => "bad-op"
+  | _, _ => "bad-op"
+
+open IpcHub.InterleaveSpec in
+def handleMsg (h : String) : String :=
+  match hexToBytes h with
+  | some m =>
+    let kind := match nextUnit m with
+      | some (.frame ch p, []) => s!"frame:{ch.toNat}:{bytesToHex p}"
+      | some (.response r, []) => s!"response:{cseqOf r}"
+      | some (_, _ :: _) => "trailing-bytes"
+      | none => if m.isEmpty then "empty" else "incomplete"
+    s!"ok={boolStr (messageOk m)} kind={kind}"
+  | none => "bad-op"
+
+def chunksStr (cs : List Bytes) : String :=
+  if cs.isEmpty then "none" else String.intercalate "," (cs.map bytesToHex)
+
+/-- the harness fills write number k with the bytes seq, seq+1, … (mod 256), seq running over all writes -/
+def genBytes (start n : Nat) : Bytes := (List.range n).map (fun i => UInt8.ofNat ((start + i) % 256))
+
+def checksum (b : Bytes) : Nat := b.foldl (fun h x => (h * 31 + x.toNat) % 4294967296) 7
+
+partial def bconnLoop (c : BConn) (i : Nat) (dec : String) (all : Bytes) : List String → String
+  | [] =>
+    let specOk := c.sock ++ c.buf == all
+    s!"ok decisions={if dec.isEmpty then "-" else dec} sock={c.sock.length}:{checksum c.sock} spec={boolStr specOk}"
+  | "W" :: n :: sl :: bl :: r =>
+    let p := genBytes (all.length + 1) n.toNat!
+    let a := c.write p false
+    let b := c.write p true
+    if a.sock.length == sl.toNat! && a.buf.length == bl.toNat! then bconnLoop a (i + 1) (dec ++ "0") (all ++ p) r
+    else if b.sock.length == sl.toNat! && b.buf.length == bl.toNat! then bconnLoop b (i + 1) (dec ++ "1") (all ++ p) r
+    else s!"mismatch at={i} model0={a.sock.length}/{a.buf.length} model1={b.sock.length}/{b.buf.length}"
+  | "F" :: sl :: bl :: r =>
+    let a := c.flush
+    if a.sock.length == sl.toNat! && a.buf.length == bl.toNat! then bconnLoop a (i + 1) dec all r
+    else s!"mismatch at={i} model={a.sock.length}/{a.buf.length}"
+  | _ => "bad-op"
+
+def parseInt (s : String) : Int :=
+  if s.startsWith "-" then -((s.drop 1).toNat! : Int) else (s.toNat! : Int)
+
+def handle : List String → String
+  | "lts" :: sched :: rest => handleLts sched rest
+  | "stream" :: raw :: rest => handleStream raw rest
+  | ["msg", h] => handleMsg h
+  | ["pw", ch, d] =>
+    match hexToBytes d with
+    | some data => "chunks=" ++ chunksStr (packetWrites (parseInt ch) data)
+    | none => "bad-op"
+  | ["wsc", ch, d] =>
+    match hexToBytes d with
+    | some data => "msgs=" ++ chunksStr (wsConsume genSkipEmpty (parseInt ch) data)
+    | none => "bad-op"
+  | "bconn" :: bs :: rest => bconnLoop { bufferSize := bs.toNat!, buf := [], sock := [] } 0 "" [] rest
+  | _ => "bad-op"
+
 end IpcHub.Drv.C13
